@@ -29,18 +29,26 @@ var fqErr = fqItem{"err", []int{}, []int{}, []int{}}
 // fqRead: the item sequence of the real Reader (records and errors, in order; capped).
 func fqRead(data []byte) (items []fqItem, panicked bool) {
 	items = []fqItem{}
+	var kept []*fastq.Fastq // nil = error item; records are projected after the iteration (they must stay what they were)
 	panicked, _ = catch(func() {
 		for f, err := range fastq.Reader(bytes.NewReader(data)) {
 			if err != nil {
-				items = append(items, fqErr)
+				kept = append(kept, nil)
 			} else {
-				items = append(items, fqProject(f))
+				kept = append(kept, f)
 			}
-			if len(items) > 1000 {
+			if len(kept) > 1000 {
 				break
 			}
 		}
 	})
+	for _, f := range kept {
+		if f == nil {
+			items = append(items, fqErr)
+		} else {
+			items = append(items, fqProject(f))
+		}
+	}
 	return
 }
 
@@ -235,6 +243,11 @@ func fastqDrive(args []string) error {
 			want = append(want, fqProject(f))
 		}
 		var own []byte
+		type held struct {
+			ev fqEvent
+			bm []byte
+		}
+		var hs []held // MarshalText results are looked at only after all records were marshalled and written
 		for _, f := range recs {
 			ev := fqEvent{Sid: sid, Op: "write", Kind: "write", Name: ints(f.Name), Seq: ints(f.Sequence), Quals: ints(f.Quals),
 				Bytes: []int{}, Recs: []fqItem{}, Items: []fqItem{}}
@@ -251,9 +264,13 @@ func fastqDrive(args []string) error {
 			if !fqItemsEqual([]fqItem{before}, []fqItem{fqProject(f)}) {
 				ev.Panic = true
 			}
-			ev.BW, ev.BM = ints(buf.Bytes()), ints(bm)
+			ev.BW = ints(buf.Bytes())
 			own = append(own, buf.Bytes()...)
-			tw.emit(ev)
+			hs = append(hs, held{ev, bm})
+		}
+		for _, h := range hs {
+			h.ev.BM = ints(h.bm)
+			tw.emit(h.ev)
 		}
 		emitRead := func(kind string, data []byte, j int) {
 			ev := fqEvent{Sid: sid, Op: "read", Kind: kind, Name: []int{}, Seq: []int{}, Quals: []int{}, BW: []int{}, BM: []int{},
